@@ -14,10 +14,10 @@ PKGS=$(for f in $DEMOS; do echo "./$(dirname $f)/"; done | sort -u | tr '\n' ' '
 echo "demo files: $DEMOS ; packages: $PKGS"
 SUITE=$(go test -vet=off -count=1 -skip TestSeeded ./... 2>&1 | grep "^--- FAIL\|^FAIL.*vise.git/\|^panic" | grep -v "gdbm\|dbconvert" | head -5 | tr '\n' ' ')
 echo "suite-with-change: ${SUITE:-PASS}"
-go test -vet=off -count=1 -run TestSeeded $PKGS > /tmp/seed-demo-with.txt 2>&1; RCW=$?
+go test -vet=off -count=1 -run TestSeeded $RACEFLAG $PKGS > /tmp/seed-demo-with.txt 2>&1; RCW=$?
 echo "demo-with-change: rc=$RCW (expected non-zero) $(grep -c '^--- FAIL' /tmp/seed-demo-with.txt) failing tests"
 git apply -R "$WT/mutant/patch.diff"
-go test -vet=off -count=1 -run TestSeeded $PKGS > /tmp/seed-demo-without.txt 2>&1; RCO=$?
+go test -vet=off -count=1 -run TestSeeded $RACEFLAG $PKGS > /tmp/seed-demo-without.txt 2>&1; RCO=$?
 echo "demo-without-change: rc=$RCO (expected 0)"
 mkdir -p /verif/seeded/$ID
 cp "$WT/mutant/patch.diff" /verif/seeded/$ID/patch.diff
